@@ -1226,6 +1226,7 @@ impl Space for Occupancy {
         let n = (idx / 2) as usize;
         let img = occupancy_image(enc);
         let base: usize = img.names.last().unwrap().parse().unwrap();
+        assert!(base + n <= img.shdr_pool.len(), "occupancy image has too few filler ranges for n = {n}");
         let ops: Vec<Op> = img.ops.clone();
         let model = SModel::new(img, self.which, 0);
         let mut dig = crate::util::Fnv::new();
